@@ -261,3 +261,37 @@ def run(repo: Repo, rep: Report) -> None:
                 if (is_state and e.attr == "value") or txt in evaluated:
                     rep.ob("C08.g-accumulated-value-by-identity", ag, "%s.%s" % (cname, mname), "%s [in %s: %s]" % (txt, kind, norm(getattr(owner, "test", owner))[:60]), False,
                            "%s is a term (or None): a falsy literal is treated as `not set`, so e.g. a running MIN/MAX of 0 is overwritten without comparison" % txt, node=e)
+
+    # ------------------------------------------------------------------ (h)
+    rep.rule("C08.h-group-variables-sampled-in-having-and-orderby",
+             "translateAggregates (SPARQL 18.2.4.1): in HAVING and in ORDER BY every unaggregated variable is replaced by Sample(V) per group whether or not the clause "
+             "itself contains an aggregate call; the rewrite (`q.X = traverse(q.X, _sample ...)`) is therefore not guarded by `traverse(q.X, _hasAggregate, complete=False)`. "
+             "After the AggregateJoin only aggregate results exist, so an unsampled group key that is not projected is unbound in HAVING (all groups dropped) and in "
+             "ORDER BY (rows not ordered)", floor=2)
+    alg = repo.mod("rdflib.plugins.sparql.algebra")
+    ta = alg.func("translateAggregates")
+    for clause in ("having", "orderby"):
+        rew = [n for n in own_nodes(ta) if isinstance(n, ast.Assign) and norm(n.targets[0]).endswith("." + clause) and isinstance(n.value, ast.Call)
+               and norm(n.value.func) == "traverse" and any("_sample" in norm(a) for a in n.value.args)]
+        if not rew:
+            rep.ob("C08.h-group-variables-sampled-in-having-and-orderby", alg, "translateAggregates", "q.%s is rewritten with _sample" % clause, False,
+                   "no sampling rewrite of q.%s found: unaggregated variables of the clause are unbound after grouping" % clause, node=ta)
+            continue
+        for n in rew:
+            bad = None
+            child = n
+            for p_ in alg.parents(n):
+                if isinstance(p_, ast.If) and child in p_.body:
+                    for t in ast.walk(p_.test):
+                        if isinstance(t, ast.Call) and norm(t.func) == "traverse" and any("_hasAggregate" in norm(a) for a in t.args):
+                            comp = [k.value for k in t.keywords if k.arg == "complete"]
+                            always = bool(comp) and isinstance(comp[0], ast.Constant) and comp[0].value is True
+                            if not always:
+                                bad = t
+                if p_ is ta:
+                    break
+                child = p_
+            rep.ob("C08.h-group-variables-sampled-in-having-and-orderby", alg, "translateAggregates", "q.%s: %s" % (clause, norm(n)[:80]), bad is None,
+                   "sampled unconditionally" if bad is None else
+                   "the %s clause is sampled only if `%s` - i.e. only if it contains an aggregate call: `GROUP BY ?d %s` with ?d not projected refers to a variable that no longer exists after grouping" % (
+                       clause.upper(), norm(bad), "HAVING (?d != <x>)" if clause == "having" else "ORDER BY ?d"), node=bad or n)
